@@ -72,6 +72,9 @@ RUN_TAIL_LINE = 990     # RUN 990 -> the last line of the program: runs off its 
 FILES = {1: ('F1.DAT', 16), 2: ('F2.DAT', 40)}
 NREC = 3
 _ALNUM = 'abcdefghijklmnopqrstuvwxyzABCDEFGHIJKLMNOPQRSTUVWXYZ0123456789'
+# string items of the DATA line 65 of P1 (READ leaves the variable pointing into the program text)
+DATA_LINE = 65
+DATA_ITEMS = ['alpha', 'bravo xy', 'Charlie9']
 
 # cfg keys added after the first version of this machine (so that older replay files stay executable)
 CFG_DEFAULTS = {
@@ -109,6 +112,9 @@ def _gen_sval(rng):
         return {'k': 'cat', 's': rng.choice(_WORDS), 't': rng.choice(_WORDS)}
     if r < 0.8:
         return {'k': 'rep', 'n': rng.choice([1, 2, 17, 100, 254, 255]), 'c': rng.choice('abcXYZ')}
+    if r < 0.88:
+        # plain copy of another variable (shares its descriptor if that points into program text)
+        return {'k': 'copy', 'v': rng.choice(STR_SCALARS)}
     return {'k': 'var', 'v': rng.choice(STR_SCALARS), 's': rng.choice(_WORDS)}
 
 
@@ -218,6 +224,14 @@ def gen(rng, tier, prop):
                 if fn not in opened:
                     opened.append(fn)
             continue
+        if rng.random() < 0.12:
+            # one DATA item read into one or several variables: they all point at the same program text
+            item = rng.randrange(len(DATA_ITEMS))
+            for _k in range(rng.choice([1, 2, 2, 3])):
+                op = {'op': 'read', 'item': item}
+                op.update(_gen_target(rng, str_common))
+                ops.append(op)
+            continue
         r = rng.random()
         if r < 0.40:
             v = rng.choice(SCALARS)
@@ -254,6 +268,11 @@ def gen(rng, tier, prop):
         # (preferably one that CHAIN has to carry over)
         f = _gen_field(rng, opened, str_common)
         ops.append(f)
+        if rng.random() < 0.4:
+            # a second variable on the very same bytes of the buffer
+            f2 = {k: f[k] for k in ('op', 'fn', 'off', 'w')}
+            f2.update(_gen_target(rng, str_common))
+            ops.append(f2)
         if rng.random() < 0.6:
             ops.append(_gen_lset(rng, {k: f[k] for k in ('var', 'arr', 'i') if k in f}))
     if faulty and rng.random() < 0.3:
@@ -327,13 +346,15 @@ def p1_lines(cfg):
         lines.append('10 COMMON %s' % ','.join(cs[:half]))
         if cs[half:]:
             lines.append('15 COMMON %s' % ','.join(cs[half:]))
-    lines.append('20 DEF FNA(P9)=P9+1')
+    # (a string function too: its entry among the variables holds a code pointer, not a string)
+    lines.append('20 DEF FNA(P9)=P9+1:DEF FNB$(P9$)=P9$+"q"')
     if cfg['deftype']:
         lines.append('30 DEFSTR S:DEFINT N')
     if cfg['base1']:
         lines.append('40 OPTION BASE 1')
     lines.append('50 ON ERROR GOTO 900')
     lines.append('60 DATA 11,22,33,44')
+    lines.append('%d DATA %s' % (DATA_LINE, ','.join('"%s"' % x if ' ' in x else x for x in DATA_ITEMS)))
     lines.append('70 READ D1,D2')
     # (a string in string space from the start: keeps set-up clear of a known crash of the collector
     # with no permanent string, which is not this property's business)
@@ -478,6 +499,8 @@ class Model(object):
             return sv['c'] * sv['n']
         if k == 'var':
             return (self.sget(sv['v']) + sv['s'])
+        if k == 'copy':
+            return self.sget(sv['v'])
         raise ValueError(sv)
 
 
@@ -491,6 +514,8 @@ def sval_text(sv):
         return 'STRING$(%d,"%s")' % (sv['n'], sv['c'])
     if k == 'var':
         return '%s+"%s"' % (sv['v'], sv['s'])
+    if k == 'copy':
+        return sv['v']
     raise ValueError(sv)
 
 
@@ -649,7 +674,7 @@ def run(case):
                 run.probe('reset-with-field-variables')
             # ---- judge
             if reset == 'chain' and not failed_chain:
-                judge_chain(run, d, m, cfg, ev, r)
+                judge_chain(run, d, m, cfg, ev, r, tight=pressure or free < 4000)
                 if cfg['p2end'] == 'stop' and not (pressure or free < 4000):
                     probe_random_file(run, d, m, root, 'chain')
                 probe_fresh_program(run, d, cfg, 'chain')
@@ -759,6 +784,23 @@ def build_state(run, d, m, ops, pressure):
                     m.fld[op['b']] = fa
         elif k == 'gc':
             d.exec(b'Z9=FRE("")')
+        elif k == 'read':
+            # READ a string item of line 65 (D9$ takes the items before it): the variable points into the program text
+            key = _tkey(op)
+            txt = 'RESTORE %d:READ %s%s' % (DATA_LINE, 'D9$,' * op['item'], key)
+            r = d.exec(b(txt))
+            if _err(r) in (7, 14) and pressure:
+                _pressure_resync(run, d, m, op.get('arr'))
+                continue
+            exp_err = _touch_elem(m, op['arr'], op['i']) if 'arr' in op else None
+            if _setup_ok(run, r, exp_err, pressure, txt):
+                m.fld.pop(key, None)
+                if 'arr' in op:
+                    m.ar[op['arr']][op['i']] = DATA_ITEMS[op['item']]
+                else:
+                    m.sc[key] = DATA_ITEMS[op['item']]
+                nontrivial = True
+                run.probe('read-from-data')
         elif k == 'fill':
             if FILL not in m.ar:
                 r = d.exec(b('DIM %s(%d)' % (FILL, op['max'])))
@@ -904,7 +946,7 @@ def _short(v):
     return repr(v)
 
 
-def judge_chain(run, d, m, cfg, ev, r):
+def judge_chain(run, d, m, cfg, ev, r, tight=False):
     ch = cfg['chain']
     common = set(cfg['common'])
     keep_all = ch['all']
@@ -954,6 +996,7 @@ def judge_chain(run, d, m, cfg, ev, r):
                         'ON ERROR GOTO / ERROR 98 in the chained program -> %r\n%s' % (r, _ctx(cfg)))
     # (2) after it ended: full contents
     diffs = readback(d, exp, SCALARS, ARRAYS + [FILL])
+    values_ok = not diffs
     for name, got, want in diffs:
         base = name.split('(')[0]
         is_common = keep_all or base in common or (base + '()') in common
@@ -989,6 +1032,68 @@ def judge_chain(run, d, m, cfg, ev, r):
         run.violate('C23', 'chain:%s:value-lost-at-next-collection' % opts,
                     '%s reads %s after a string allocation and FRE("") in the chained state, expected %s\n%s' % (
                         name, _short(got), _short(want), _ctx(cfg)))
+    # (4) they are present as independent variables: changing one in place leaves the others as they were
+    if values_ok and not diffs:
+        probe_shared_storage(run, d, exp, cfg, opts, tight)
+
+
+def _string_refs(exp):
+    """The non-empty string scalars and string-array elements of a model, as written in BASIC."""
+    refs = [name for name in STR_SCALARS if exp.sc.get(name)]
+    for name in STR_ARRAYS + [FILL]:
+        if name in exp.ar:
+            refs.extend('%s(%d)' % (name, i) for i in range(exp.base, len(exp.ar[name])) if exp.ar[name][i])
+    return refs
+
+
+def probe_shared_storage(run, d, exp, cfg, opts, tight):
+    """
+    After CHAIN the carried-over strings are separate variables again, whatever they shared before
+    (the same DATA item or program literal, the same bytes of a record buffer): MID$=, LSET or RSET on
+    one of several variables of equal value changes that one only. Updates exp.
+    """
+    groups = {}
+    for ref in _string_refs(exp):
+        groups.setdefault(exp.kget(ref), []).append(ref)
+    picked = [g for g in groups.values() if len(g) > 1][:3] or [g for g in groups.values()][:1]
+    changed = {}
+    for j, group in enumerate(picked):
+        x = group[0]
+        old = exp.kget(x)
+        n = len(old)
+        how = ('mid', 'lset', 'rset')[(j + len(cfg['common'])) % 3]
+        if how == 'mid':
+            txt, new = 'MID$(%s,1,1)="#"' % x, '#' + old[1:]
+        elif how == 'lset':
+            txt, new = 'LSET %s="#<"' % x, '#<'[:n].ljust(n)
+        else:
+            txt, new = 'RSET %s=">#"' % x, '>#'[:n].rjust(n)
+        rr = d.exec(b(txt))
+        if rr.errs:
+            if tight and all(c in (7, 14) for c, _ in rr.errs):
+                # (the one-byte operand did not fit into a full memory)
+                continue
+            run.violate('C23', 'chain:%s:common-string-cannot-be-changed-in-place' % opts,
+                        '%s (%s held %s after CHAIN) -> %r\n%s' % (txt, x, _short(old), rr, _ctx(cfg)))
+            continue
+        exp.kput(x, new)
+        changed[x] = (txt, group)
+    if not changed:
+        return
+    stmts = ' / '.join(changed[x][0] for x in changed)
+    for name, got, want in readback(d, exp, SCALARS, ARRAYS + [FILL])[:4]:
+        if name in changed:
+            run.violate('C23', 'chain:%s:in-place-change-of-common-string-not-seen' % opts,
+                        'after CHAIN: %s; %s reads %s, expected %s\n%s' % (stmts, name, _short(got), _short(want), _ctx(cfg)))
+        else:
+            run.violate('C23', 'chain:%s:common-strings-share-storage' % opts,
+                        'after CHAIN: %s; now %s reads %s, expected its value from before the CHAIN %s '
+                        '(variables of equal value before the change: %s)\n%s' % (
+                            stmts, name, _short(got), _short(want),
+                            '; '.join(','.join(changed[x][1][:6]) for x in changed), _ctx(cfg)))
+    run.probe('shared-storage-probed')
+    if any(len(changed[x][1]) > 1 for x in changed):
+        run.probe('shared-storage-probed:equal-values')
 
 
 def _ctx(cfg):
